@@ -64,6 +64,21 @@ def run(rng, tier, res=None):
             lines.append(line); obs.append(("TOL", [float(acc)])); metas.append(meta)   # n_class may reach 8: numpy sums pairwise there
             res.add_case(line, nontrivial=True); res.hit("preds_out_of_range")
             continue
+        # class identifiers 1..K (native OPF numbering): the measures must leave the caller's vectors alone there too
+        if dt != "list" and np.dtype(dt) != np.uint8 and case % 4 == 1:
+            L1, P1 = La + 1, Pa + 1
+            l1b, p1b = L1.tobytes(), P1.tobytes()
+            try:
+                G.opf_accuracy(L1, P1)
+                G.purity(L1, P1)
+                G.confusion_matrix(L1, P1)
+            except Exception:
+                pass
+            if L1.tobytes() != l1b or P1.tobytes() != p1b:
+                res.violations.append({"property": "C07", "what": "an evaluation measure modified the caller's label/prediction vectors "
+                                       "(class identifiers 1..K)", "replay": meta})
+            res.hit("one_based_labels")
+        snap = (bytes(np.asarray(La).tobytes()), bytes(np.asarray(Pa).tobytes())) if dt != "list" else (list(La), list(Pa))
         try:
             cm = G.confusion_matrix(La, Pa)
             acc = G.opf_accuracy(La, Pa)
@@ -72,6 +87,10 @@ def run(rng, tier, res=None):
                 per = list(G.opf_accuracy_per_label(La, Pa))
             else:
                 per = None
+            now = (bytes(np.asarray(La).tobytes()), bytes(np.asarray(Pa).tobytes())) if dt != "list" else (list(La), list(Pa))
+            if now != snap:
+                res.violations.append({"property": "C07", "what": "an evaluation measure modified the caller's label/prediction vectors",
+                                       "replay": meta})
         except Exception as ex:
             viol(f"evaluation measure raised {type(ex).__name__}: {ex} on in-range labels/predictions", meta)
             continue
